@@ -291,6 +291,14 @@ func (w *World) Apply(op Op) {
 			w.fail("sdel-search-err", fmt.Sprintf("Search(%s %s %v) failed: %v", op.Field, op.Cmp, probe, s.Err()))
 			return
 		}
+		if op.Alt == 1 {
+			// the same set, as the union with a search that matches nothing
+			s = s.Or("S", "=", "\x00never-stored")
+			if s.Err() != nil {
+				w.fail("sdel-search-err", fmt.Sprintf("Search(%s %s %v).Or(S = absent) failed: %v", op.Field, op.Cmp, probe, s.Err()))
+				return
+			}
+		}
 		if err := s.Delete(); err != nil {
 			if w.Tolerant {
 				w.LastErr = err
